@@ -115,15 +115,15 @@ NextRegs(a, rg) == [r |-> a, t |-> IF a = 1 THEN 1 - rg.t ELSE rg.t, cyc |-> (rg
 Init == /\ p \in ProgIds /\ n = 0 /\ regs = [r |-> 0, t |-> 0, cyc |-> 0]
         /\ ins = <<>> /\ hist = <<>> /\ emitted = <<>> /\ stop = <<>> /\ atstop = {}
 
+(* the events of one edge: evaluated once per step (bound by \E so that TLC does not re-evaluate the interpreter) *)
 Tick(a, b, s) ==
     /\ stop = <<>> /\ n < Limit(p)
     /\ LET env0 == Env(a, b, s, regs)
            env == IF TMutant = "postedge" THEN [env0 EXCEPT !.r = NextRegs(a, regs).r, !.t = NextRegs(a, regs).t] ELSE env0
-           evs == ExecSeq(Programs[p].body, env)
-           prints == SelectSeq(evs, LAMBDA e : e.ev = "print")
-           fails == SelectSeq(evs, LAMBDA e : e.ev = "fail")
            at == IF TMutant = "late" THEN regs.cyc + 1 ELSE regs.cyc
-       IN /\ IF Len(fails) = 0
+       IN \E evs \in {ExecSeq(Programs[p].body, env)} :
+          \E prints \in {SelectSeq(evs, LAMBDA e : e.ev = "print")}, fails \in {SelectSeq(evs, LAMBDA e : e.ev = "fail")} :
+          /\ IF Len(fails) = 0
              THEN /\ emitted' = emitted \o [i \in 1..Len(prints) |-> <<regs.cyc, prints[i].id>>]
                   /\ UNCHANGED <<stop, atstop>>
              ELSE /\ stop' = <<at, {<<fails[i].id, fails[i].kind>> : i \in 1..Len(fails)}>>
